@@ -634,6 +634,12 @@ func (r *Decoder) decodeValueNode(ectx evaluationContext, v *jsonldinternal.Expa
 		}
 
 		lit.Datatype = rdf.IRI(typeString)
+
+		if lit.Datatype == rdfiri.LangString_Datatype || lit.Datatype == rdfiri.Base+"dirLangString" {
+			// a (directional) language-tagged string cannot be written as a typed value: it would have no tag
+			// TODO warn
+			return nil
+		}
 	}
 
 	atValuePrimitive, err := expandedAs[*jsonldinternal.ExpandedScalarPrimitive](v.Members["@value"], "@value")
